@@ -93,7 +93,10 @@ def block_table(thorough):
           B("SymbolSync", {"sps": 4.0}, "square", 120),
           B("ToText<u8>", {}, "bytes", 30),
           B("ToText2<u8>", {}, "bytes", 25, kinds=["bytes", "small"]),
-          B("StreamToPdu<u8>", {"max": 20, "tail": 2}, "bytes", 80),
+          B("StreamToPdu<u8>", {"max": 20, "tail": 2}, "bytes", 80, extra={"force_tags": "burst"}),
+          B("StreamToPdu<u8>", {"max": 5, "tail": 0}, "bytes", 80, extra={"force_tags": "burst"}),
+          B("StreamToPdu<u8>", {"max": 4, "tail": 2}, "bytes", 90, extra={"force_tags": "burst"}),
+          B("StreamToPdu<u8>", {"max": 3, "tail": 1}, "bytes", 70, extra={"force_tags": "burst_stray"}),
           B("VecToStream<u8>", {}, "bytes", 12),
           B("VecToStream<u8>", {}, "bytes", 12, extra={"packets": [[1] * 3000, [2] * 2000, [3] * 1500, [4] * 10, [5] * 4000]}),
           B("HdlcDeframer", {"min": 1, "max": 30}, "bits_runs", 200),
